@@ -29,6 +29,12 @@ func reformatDescription(input string, maxWidth int) []string {
 
 		words := strings.Split(line, " ")
 		for _, word := range words {
+			if word == "" {
+				// a run of spaces, or a trailing one: it would be kept on the
+				// line it ends, then stripped, and a second pass would wrap
+				// the shorter line differently
+				continue
+			}
 			if pend == "" {
 				pend = word
 				continue
